@@ -170,7 +170,7 @@ def theorem_status(prop):
 		axioms = []
 		if b.startswith('Axioms:'):
 			for line in b.split('\n')[1:]:
-				m = re.match(r'^(\S+)\s*:', line)
+				m = re.match(r'^([A-Za-z_][\w.\']*)', line)
 				if m:
 					axioms.append(m.group(1))
 		bad = [a for a in axioms if a not in ALLOWED_AXIOMS]
